@@ -21,7 +21,8 @@ namespace CR
 def tailOf (sc : SC) : List (Nat × Nat) :=
   if sc.have_ = 0 then [] else [(sc.start, sc.have_)]
 
-theorem drain_rolling {algo data} (f : FilterConfig) (hv : f.Valid) : ∀ (fuel s : Nat) (h : Hasher),
+theorem drain_rolling {algo data} (f : FilterConfig) (hv : f.Sane)
+    (hwm : algo = .buz → f.window ≤ f.maxSize) : ∀ (fuel s : Nat) (h : Hasher),
     Start algo f.window data s h → s ≤ data.length → data.length - s < fuel →
     ∃ cs sc', SC.drain fuel ⟨s, data.drop s, data.length - s,
         .rolling (RHParams.ofConfig f) ⟨h, 0⟩⟩ = (cs, sc') ∧
@@ -39,7 +40,7 @@ theorem drain_rolling {algo data} (f : FilterConfig) (hv : f.Valid) : ∀ (fuel 
       simp [tailOf, show data.length ≤ s by omega]
     · have hlt : s < data.length := by omega
       simp only [hz, if_false, show ¬ data.length ≤ s by omega, Chunker.next]
-      have hn := next_spec f hv hlt st
+      have hn := next_spec f hv hwm hlt st
       cases hc : specCut algo f data s with
       | none =>
         rw [hc] at hn
@@ -124,11 +125,13 @@ theorem chunkAll_eq_specChunks (cfg : Config) (hv : cfg.Valid) (data : Bytes) :
       refine .inl ⟨⟨rfl, ?_, ?_⟩, fun h => by cases h⟩
       · rw [hw]; simp
       · rw [hw]; exact RollOK_new _
-    obtain ⟨cs, sc', e, hh, hcs⟩ := drain_rolling (algo := .roll) (data := data) f hv
+    obtain ⟨cs, sc', e, hh, hcs⟩ := drain_rolling (algo := .roll) (data := data) f
+      (FilterConfig.Sane_of_ValidRoll hv) (fun h => by cases h)
       (data.length + 1) 0 (.roll (RollSum.new f.window)) st (Nat.zero_le _) (by omega)
     exact (chunkAll_eq_drain _ _ cs sc' (by simpa [Chunker.ofConfig] using e) hh).trans hcs
   | buzhash f =>
-    obtain ⟨cs, sc', e, hh, hcs⟩ := drain_rolling (algo := .buz) (data := data) f hv
+    obtain ⟨cs, sc', e, hh, hcs⟩ := drain_rolling (algo := .buz) (data := data) f
+      (FilterConfig.Sane_of_Valid hv) (fun _ => hv.window_le)
       (data.length + 1) 0 (.buz (BuzHash.new f.window)) (.inr ⟨rfl, rfl, rfl⟩) (Nat.zero_le _)
       (by omega)
     exact (chunkAll_eq_drain _ _ cs sc' (by simpa [Chunker.ofConfig] using e) hh).trans hcs
